@@ -390,6 +390,15 @@ def check(rep, proof):
     cases.append(dict(stack=[[1, -1, -1], [1, -1, -1], [2, 0, 1], [0, 0, 0], [0, 1, 1], [0, 2, 2], [4, 2, 3], [4, 2, 4], [4, 1, 5], [2, 6, 7], [2, 9, 8]],
                       D=3, kind="poly"))
     cases.append(dict(stack=[[1, 0, 0], [1, 1, 1], [4, 0, 1], [0, 0, 0], [4, 2, 3], [0, 1, 1], [4, 2, 5], [2, 4, 6], [4, 0, 3], [2, 7, 8]], D=2, kind="poly"))
+    # every composition f(g(u)) of two unary operators, u = X_0 - X_1 (negative on half of the plane): inverse-looking pairs such
+    # as exp(log(u)) (= |u| here: the logarithm is log|u|), sqrt(u)^2, ||u|| must keep their value pointwise
+    UN = [6, 7, 8, 9, 11, 12, 14, 15]
+    for fi, f in enumerate(UN):
+        for gi, g_ in enumerate(UN):
+            st_ = [[0, 0, 0], [0, 1, 1], [3, 0, 1], [g_, 2, 2], [f, 3, 3]]
+            if (fi + gi) % 2:
+                st_.append([2, 4, 1])
+            cases.append(dict(stack=st_, D=2, kind="nopow"))
     cases.append(dict(stack=[[0, 0, 0], [-1, 3, 3], [13, 0, 1]], D=1, kind="all"))
     cases.append(dict(stack=[[0, 0, 0], [-1, 1, 1], [13, 0, 1]], D=1, kind="all"))
     rc, res, out, wall = vlib.run_impl("c03", dict(cases=cases, seed=rep.seed), timeout=3400)
